@@ -61,6 +61,17 @@ Theorem C32_accessors_total :
 Proof. exact accessors_total. Qed.
 Print Assumptions C32_accessors_total.
 
+(* from_txt_strings (key of a SecretKey, 64-byte signature, ANY clock value, ANY outcome of the DNS
+   library's build - including a payload that does not parse back) returns either an error or a
+   constructed packet, to which C32_accessors_total applies. *)
+Theorem C32_from_txt_strings_constructed :
+  forall (is_point : bytes -> bool) (verify : bytes -> bytes -> bytes -> bool) (dns_ok : bytes -> bool)
+         key sig ts build p,
+    is_point key = true -> length key = 32%nat -> length sig = 64%nat ->
+    from_txt_strings key sig ts build = Ok p -> constructed is_point verify dns_ok p.
+Proof. exact from_txt_strings_constructed. Qed.
+Print Assumptions C32_from_txt_strings_constructed.
+
 (* The code before the fix (unchecked constructors never look at the key bytes)
    does NOT have that property. *)
 Theorem C32_unchecked_old_refuted :
@@ -86,6 +97,7 @@ Theorem C32_monitor_is_property : forall i o,
    inspect_prop (r_unchecked o) /\ inspect_prop (r_parts o) /\
    (forall r, r_relay o = Some r -> accepted_prop i (key_of (all_bytes i)) (all_bytes i) r) /\
    (forall r, r_relay2 o = Some r ->
-      accepted_prop i (in_key2 i) (in_key2 i ++ skipn 32 (all_bytes i)) r)).
+      accepted_prop i (in_key2 i) (in_key2 i ++ skipn 32 (all_bytes i)) r) /\
+   (forall r, r_txt o = Some r -> txt_wf i = true -> inspect_prop r)).
 Proof. exact monitor_spec. Qed.
 Print Assumptions C32_monitor_is_property.
